@@ -8,6 +8,7 @@ package main
 // in [5 s, 10 s), everything offered before the deadline was read.
 
 import (
+	"bytes"
 	"encoding/hex"
 	"fmt"
 	"net"
@@ -143,6 +144,32 @@ func c03Streams(a *vh.Args) []probeStream {
 			out = append(out, probeStream{fmt.Sprintf("prefix%d+noise(len=%d)", id, n), append(append([]byte{}, sb...), noise(64+d, fmt.Sprintf("p%d", id))...), false, nil})
 		}
 	}
+	// degenerate key material where a tag would be: all-zero / all-one blocks and the small-order points of
+	// Curve25519 (X25519 rejects them), alone and behind every static prefix
+	lowOrder := [][]byte{
+		make([]byte, 32),
+		append([]byte{1}, make([]byte, 31)...),
+		{0xe0, 0xeb, 0x7a, 0x7c, 0x3b, 0x41, 0xb8, 0xae, 0x16, 0x56, 0xe3, 0xfa, 0xf1, 0x9f, 0xc4, 0x6a, 0xda, 0x09, 0x8d, 0xeb, 0x9c, 0x32, 0xb1, 0xfd, 0x86, 0x62, 0x05, 0x16, 0x5f, 0x49, 0xb8, 0x00},
+		{0x5f, 0x9c, 0x95, 0xbc, 0xa3, 0x50, 0x8c, 0x24, 0xb1, 0xd0, 0xb1, 0x55, 0x9c, 0x83, 0xef, 0x5b, 0x04, 0x44, 0x5c, 0xc4, 0x58, 0x1c, 0x8e, 0x86, 0xd8, 0x22, 0x4e, 0xdd, 0xd0, 0x9f, 0x11, 0x57},
+		append([]byte{0xec}, append(bytes.Repeat([]byte{0xff}, 30), 0x7f)...),
+		append([]byte{0xed}, append(bytes.Repeat([]byte{0xff}, 30), 0x7f)...),
+		append([]byte{0xee}, append(bytes.Repeat([]byte{0xff}, 30), 0x7f)...),
+		bytes.Repeat([]byte{0xff}, 32),
+	}
+	for li, lo := range lowOrder {
+		body := append(append([]byte{}, lo...), noise(64, fmt.Sprintf("lo%d", li))...)
+		out = append(out, probeStream{fmt.Sprintf("degenerate-key%d+noise", li), body, false, nil})
+		if li < 2 || li == 7 {
+			for _, id := range ids {
+				sb := prefix.DefaultPrefixes[prefix.PrefixID(id)].Bytes()
+				if len(sb) == 0 {
+					continue
+				}
+				out = append(out, probeStream{fmt.Sprintf("prefix%d+degenerate-key%d+noise", id, li), append(append([]byte{}, sb...), body...), false, nil})
+			}
+		}
+	}
+	out = append(out, probeStream{"zeros200", make([]byte, 200), false, nil})
 	out = append(out, probeStream{"tls-clienthello", append([]byte("\x16\x03\x01\x02\x00\x01\x00\x01\xfc\x03\x03"), noise(506, "tls")...), false, nil})
 	out = append(out, probeStream{"http-get", []byte("GET /index.html HTTP/1.1\r\nHost: example.com\r\nUser-Agent: curl/8.0\r\nAccept: */*\r\n\r\n"), false, nil})
 	out = append(out, probeStream{"ssh-banner", []byte("SSH-2.0-OpenSSH_8.9p1 Ubuntu-3\r\n"), false, nil})
